@@ -2,6 +2,7 @@ package props
 
 import (
 	"fmt"
+	"google.golang.org/grpc"
 	"os"
 	"os/exec"
 	"path/filepath"
@@ -33,6 +34,8 @@ type c07Case struct {
 	// instant (ids 1000.., alternating direction): the connection info reaches the dialling side just
 	// as Dial starts to wait for it
 	Burst int `json:"burst,omitempty"`
+	// SharedOpts: both ends dial with DialWithOptions and one shared options slice each (in-process mode)
+	SharedOpts bool `json:"shared_opts,omitempty"`
 }
 
 func c07GenEsts(t *rapid.T, maxK int) []c07Est {
@@ -66,6 +69,7 @@ func c07Gen(t *rapid.T) any {
 	if pct(t, "burst", 20) {
 		c.Burst = 50 + uniform(t, "burstn", 250)
 	}
+	c.SharedOpts = pct(t, "sharedopts", 40)
 	return c
 }
 
@@ -174,6 +178,11 @@ func c07Run(ci any) (out Outcome) {
 		return
 	}
 	host, plug := &localEnd{br: p.host, name: "host"}, &localEnd{br: p.plug, name: "plugin"}
+	if c.SharedOpts {
+		out.label("shared-dial-options")
+		host.dialOpts = append(make([]grpc.DialOption, 0, 16), grpc.WithUserAgent("verif-host"))
+		plug.dialOpts = append(make([]grpc.DialOption, 0, 16), grpc.WithUserAgent("verif-plugin"))
+	}
 	defer func() {
 		host.cleanup()
 		plug.cleanup()
